@@ -14,7 +14,7 @@ From RecordUpdate Require Import RecordSet.
 Import RecordSetNotations.
 From EV Require Import Base.Str Model.Value Model.Keyspace Model.Reply Model.Prog.
 From EV Require Import Model.CmdList Model.CmdHash Model.CmdSet Model.CmdZSet Model.CmdGeneric Model.CmdString.
-From EV Require Import Model.Dispatch.
+From EV Require Import Model.Dispatch Model.AbsForm.
 Local Open Scope Z_scope.
 
 (** * Handlers on a cluster node
@@ -128,6 +128,9 @@ Inductive hc_result :=
 | HcReject                                (* follower: "not cluster leader, cannot carry out command" *)
 | HcUnknown.                              (* getCommand failed *)
 
+(** [raftApplyCommand] (fixes/fix-absolute-expiry.diff): the entry carries the command in its absolute
+    form ([internal.AbsoluteExpiryForm], Model/AbsForm.v) at the leader's clock, read once when the
+    entry is built. *)
 Definition handle_command (sync : string -> bool) (pk : picker) (n : node) (d : Z) (argv : list string)
   : hc_result :=
   match argv with
@@ -138,7 +141,7 @@ Definition handle_command (sync : string -> bool) (pk : picker) (n : node) (d : 
       | Some h =>
           if negb (sync (lower cmd)) then
             let '(s', r) := run_cl d (h argv) (n_st n) in HcLocal s' r
-          else if n_leader n then HcPropose (ReqCommand d argv)
+          else if n_leader n then HcPropose (ReqCommand d (absolute_form (st_now (n_st n)) argv))
           else if n_forward n then HcForward d argv
           else HcReject
       end
@@ -149,9 +152,11 @@ Definition handle_command (sync : string -> bool) (pk : picker) (n : node) (d : 
 Definition own_state_after (n : node) (r : hc_result) : state :=
   match r with HcLocal s' _ => s' | _ => n_st n end.
 
-(** [NotifyMsg] "MutateData" on the leader (after fix 0004 the message carries the database). *)
+(** [NotifyMsg] "MutateData" on the leader (after fix 0004 the message carries the database): the
+    delegate's [ApplyMutate] is [raftApplyCommand], so the forwarded command too is put into the log in
+    its absolute form at the leader's clock. *)
 Definition notify_mutate (n : node) (db : Z) (argv : list string) : option request :=
-  if n_leader n then Some (ReqCommand db argv) else None (* re-broadcast *).
+  if n_leader n then Some (ReqCommand db (absolute_form (st_now (n_st n)) argv)) else None (* re-broadcast *).
 
 (** The leader's acknowledged write: the entry is committed, the leader's state machine applies it,
     the apply future hands the response back and only then the client gets its reply. *)
